@@ -95,7 +95,10 @@ func (t *tStructProto) structPack(m erpc.Message) error {
 		return err
 	}
 
-	return m.SetSize(uint32(t.rwCounter.Writed()))
+	// The frame has been written and flushed: record its size, but do not report a size
+	// above the limit as a failed write (the caller would send a second, error reply).
+	m.SetSize(uint32(t.rwCounter.Writed()))
+	return nil
 }
 
 func (t *tStructProto) structUnpack(m erpc.Message) error {
